@@ -5,7 +5,10 @@
 //!
 //! Monitors: `datagram-never-offered:packages` (accepted by send_bytes, connection healthy, yet no DATAGRAM frame ever
 //! leaves — same signature as C19's source-level probe), `datagram:lost-without-loss` (frames left, network clean, not all read),
-//! `datagram:not-sent-content` (something read that was not sent), `datagram:writer-unavailable`.
+//! `datagram:not-sent-content` (something read that was not sent, i.e. changed / merged / split),
+//! `datagram:reordered-or-duplicated` (reads are not a subsequence of what the peer's writer accepted),
+//! `datagram:writer-unavailable`.  Besides the n datagrams each side offers one of `limit - 1` bytes (no-length
+//! frame = limit, with-length frame > limit): if the writer accepts it, it has to arrive like the others.
 //! Transcript: `dg <ep> accepted=<a> frames_sent=<f> frames_rcvd=<r> read=<n> echo=<0|1> => ok`.
 use std::time::Duration;
 
@@ -23,6 +26,10 @@ struct Out {
     accepted: [u64; 2],
     read: [u64; 2],
     bad_content: u64,
+    /// datagrams read that are not, in this order, among those the peer's writer accepted
+    out_of_order: u64,
+    /// a datagram of `limit - 1` bytes (its with-length frame would exceed the peer's limit) was accepted
+    near_limit_accepted: [bool; 2],
     writer_err: Vec<String>,
     echo_ok: bool,
 }
@@ -32,7 +39,7 @@ async fn case(n: u64, size: usize, limit: u32, tap: std::sync::Arc<PacketTap>) -
     cfg.client_params.set(ParameterId::MaxDatagramFrameSize, limit).expect("param");
     cfg.server_params.set(ParameterId::MaxDatagramFrameSize, limit).expect("param");
     let pair = Pair::build(Box::new(Honest), cfg).await;
-    let mut out = Out { accepted: [0, 0], read: [0, 0], bad_content: 0, writer_err: vec![], echo_ok: false };
+    let mut out = Out { accepted: [0, 0], read: [0, 0], bad_content: 0, out_of_order: 0, near_limit_accepted: [false; 2], writer_err: vec![], echo_ok: false };
     let listeners = pair.listeners.clone();
     let srv = tokio::spawn(async move { listeners.accept().await.ok().map(|(c, ..)| c) });
     let Ok(cc) = pair.connect().await else { out.writer_err.push("connect".into()); return out };
@@ -59,6 +66,7 @@ async fn case(n: u64, size: usize, limit: u32, tap: std::sync::Arc<PacketTap>) -
     }
     let payload = |ep: usize, i: u64| -> Vec<u8> { (0..size).map(|k| (ep as u64 * 97 + i * 31 + k as u64) as u8).collect() };
     let conns = [cc.clone(), sc.clone()];
+    let mut sent: [Vec<Vec<u8>>; 2] = [vec![], vec![]];
     let mut readers = vec![];
     for (ep, c) in conns.iter().enumerate() {
         match c.datagram_reader() {
@@ -70,7 +78,13 @@ async fn case(n: u64, size: usize, limit: u32, tap: std::sync::Arc<PacketTap>) -
         match c.datagram_writer().await {
             Ok(Ok(w)) => {
                 for i in 0..n {
-                    if w.send(&payload(ep, i)).is_ok() { out.accepted[ep] += 1 }
+                    if w.send(&payload(ep, i)).is_ok() { out.accepted[ep] += 1; sent[ep].push(payload(ep, i)) }
+                }
+                // a datagram whose no-length frame fits the peer's limit but whose with-length frame does not:
+                // whatever the writer answers, an ACCEPTED datagram must arrive (and not kill the connection)
+                if limit <= 1200 {
+                    let d: Vec<u8> = (0..limit as usize - 1).map(|k| (k as u64 * 7 + ep as u64) as u8).collect();
+                    if w.send(&d).is_ok() { out.accepted[ep] += 1; out.near_limit_accepted[ep] = true; sent[ep].push(d) }
                 }
             }
             Ok(Err(e)) => out.writer_err.push(format!("writer{ep}:io:{:?}", e.kind())),
@@ -82,11 +96,18 @@ async fn case(n: u64, size: usize, limit: u32, tap: std::sync::Arc<PacketTap>) -
     for (ep, r) in readers.iter_mut().enumerate() {
         let Some(r) = r else { continue };
         let peer = 1 - ep;
+        let mut next = 0usize; // in-order among those that arrive: the reads are a subsequence of what the peer accepted
         loop {
             match tokio::time::timeout_at(deadline, r.recv()).await {
                 Ok(Ok(d)) => {
                     out.read[ep] += 1;
-                    if !(0..n).any(|i| payload(peer, i) == d.as_ref()) { out.bad_content += 1 }
+                    if !sent[peer].iter().any(|p| p[..] == d[..]) { out.bad_content += 1 }
+                    else {
+                        match sent[peer][next.min(sent[peer].len())..].iter().position(|p| p[..] == d[..]) {
+                            Some(k) => next += k + 1,
+                            None => out.out_of_order += 1,
+                        }
+                    }
                 }
                 _ => break,
             }
@@ -128,6 +149,8 @@ fn run(o: &Opts) {
                 sink.monitor_fail("datagram:lost-without-loss", &format!("{name}: {} accepted, {frames_sent} frames sent, {frames_rcvd} dispatched, only {read_by_peer} read on a loss-free network", out.accepted[ep]));
             }
         }
+        if out.out_of_order > 0 { sink.monitor_fail("datagram:reordered-or-duplicated", &format!("{} datagrams read out of the order in which the peer's writer accepted them (loss-free, reorder-free network)", out.out_of_order)) }
+        sink.branch(&format!("near-limit-accepted:{}", out.near_limit_accepted.iter().filter(|b| **b).count()));
         if out.bad_content > 0 { sink.monitor_fail("datagram:not-sent-content", &format!("{} datagrams read that the peer never sent", out.bad_content)) }
         if !out.writer_err.is_empty() { sink.monitor_fail("datagram:writer-unavailable", &format!("{:?}", out.writer_err)) }
         if !out.echo_ok { sink.monitor_fail("datagram:echo-failed", "the control stream echo on the same connection did not complete") }
